@@ -281,6 +281,22 @@ def check_case(case):
             bad("center:estimator-zero", f"estimator {case['estimator']} (by_chrom={case['by_chrom']}, skip_low={case['skip_low']}, "
                                          f"par={case['par']}) of the selected bins after centring is {cands[:4]}, not 0; shift applied {d[0]!r}; "
                                          f"groups {[(k, len(v)) for k, v in groups.items()][:8]}")
+        # ---- command-line tier (a quarter of the per-chromosome cases): `cnvkit.py call --center EST [--drop-low-coverage]
+        # [--diploid-parx-genome G] -m none` on the written table = center_all + do_call on the same file
+        if gen.pick(case, "cli", 4) == 0 and not out and case["by_chrom"]:
+            import shutil
+            import tempfile
+
+            from vk import cli
+
+            tmp = tempfile.mkdtemp(prefix="vk15.")
+            try:
+                diff = cli.call_diff(CopyNumArray(df.copy(), {"sample_id": "s"}), tmp, "none", 2, None, False, None, case["par"], None, None,
+                                     center=case["estimator"], drop_low=case["skip_low"])
+                if diff:
+                    bad("cli:call-center", diff)
+            finally:
+                shutil.rmtree(tmp, ignore_errors=True)
         return out
 
     # ---------------------------------------------------------------- sex
